@@ -440,6 +440,16 @@ Definition send_to_tree_node (r : res) : res := r.
 Definition tn_send_to (to_nil closing : bool) (r : res) : res :=
   if to_nil then RErr else if closing then RErr else send_to_tree_node r.
 
+(* treenode.go SendTo: the configuration set with SetConfig travels with the FIRST message to a node.
+   The pinned code marks it as sent before sending ([sentTo[to.ID] = true] precedes the send), so a
+   first send that fails leaves the node without configuration for good; [fix_n1]: mark after success.
+   [earlier]: results of the earlier SendTo calls of this instance towards that node. *)
+Definition carries_config (fix_n1 : bool) (earlier : list res) : bool :=
+  match earlier with
+  | [] => true
+  | _ => fix_n1 && forallb (fun r => match r with RErr => true | ROk => false end) earlier
+  end.
+
 Section Multi.
   Variable St : Type.
   Variable snd : St -> nat -> St * res.     (* one SendTo towards a destination *)
